@@ -621,9 +621,46 @@ def dfs_schedules(ops, max_schedules, ctx_stop, **kw):
     dfs_schedules.last_exhaustive = exhaustive
 
 
+MOTIFS = [
+    # (two loads of one key in flight, the first consumed by a read; later write + preload + read)
+    [['set', 'k', 1], ['stk', []], ['preload', ['k']], ['preload', ['k']], ['get', 'k'], ['stk', []], ['set', 'k', 2], ['preload', ['k']], ['get', 'k']],
+    [['set', 'k', 1], ['stk', []], ['preload', ['k']], ['preload', ['k']], ['get', 'k'], ['set', 'k', 2], ['get', 'k']],
+    # (delete / overwrite while a load is in flight)
+    [['set', 'k', 1], ['stk', []], ['preload', ['k']], ['del', 'k'], ['preload', ['k']], ['getd', 'k'], ['set', 'k', 2], ['get', 'k']],
+    [['set', 'k', 1], ['stk', []], ['preload', ['k']], ['set', 'k', 2], ['get', 'k'], ['stk', []], ['preload', ['k']], ['get', 'k']],
+    # (two keys: preload both, change the short-term keys in between)
+    [['set', 'k', 1], ['set', 'm', 2], ['stk', []], ['preload', ['k', 'm']], ['stk', ['m']], ['get', 'k'], ['preload', ['k']], ['set', 'k', 3], ['get', 'k'], ['get', 'm']],
+]
+
+
+def gen_motif_history(rng):
+    """One of the hand-written motifs around loads in flight, on random keys, with random other operations inserted."""
+    motif = MOTIFS[int(rng.integers(len(MOTIFS)))]
+    perm = [KEYS[j] for j in rng.permutation(len(KEYS))]
+    name = {'k': perm[0], 'm': perm[1 % len(perm)]}
+    ops, vid = [], [100]
+    for op in motif:
+        if rng.random() < 0.25:
+            ops += gen_history(rng, 1, allow_sub=False, allow_close=False)
+        kind = op[0]
+        if kind == 'set':
+            vid[0] += 1
+            ops.append(['set', 0, name[op[1]], vid[0]])
+        elif kind in ('get', 'getd', 'del', 'in'):
+            ops.append([kind, 0, name[op[1]]])
+        elif kind == 'preload':
+            ops.append(['preload', 0, [name[x] for x in op[1]], False])
+        elif kind == 'stk':
+            ops.append(['stk', 0, [name[x] for x in op[1]]])
+    # (value ids of inserted random operations may collide with nothing: they count from 1, the motif from 101)
+    return ops
+
+
 def case_sched(ctx, i):
     rng = ctx.rng
     mode = 'dfs' if i % 2 == 0 else 'random'
+    if i % 5 == 4:
+        mode = 'motif'
     backend = 'mem' if rng.random() < 0.85 else 'pickle'
     mqs = int(rng.integers(1, 3))
     if mode == 'dfs':
@@ -639,6 +676,15 @@ def case_sched(ctx, i):
             ctx.count('sched.dfs_histories_exhausted')
         ctx.count('sched.schedules', nsched)
         ctx.count('sched.max_schedules_per_history_bucket_%d' % (len(str(nsched))))
+    elif mode == 'motif':
+        ops = gen_motif_history(rng)
+        ns = 60 if ctx.tier == 'quick' else 300
+        for s_ in range(ns):
+            res = run_schedule(ops, [], rng=np.random.default_rng([ctx.seed, i, s_, 7]), backend=backend, credits=int(rng.integers(1, 3)),
+                               max_queue_size=mqs)
+            _report_sched(ctx, ops, res, 'sched', backend, mqs, None)
+        ctx.count('sched.motif_histories')
+        ctx.count('sched.schedules', ns)
     else:
         n_ops = int(rng.integers(4, 16))
         ops = gen_history(rng, n_ops, allow_sub=True, allow_close=bool(rng.random() < 0.5))
